@@ -36,7 +36,8 @@ SHARED = {
     "C27": [("C42", "R3.", "readline/read keep every buffered byte exactly once")],
     "C28": [("C30", "R6.request-number-under-lock", "prefetch replies are stored under the request that asked for them"),
             ("C27", "R3.seek-arithmetic-and-readahead-dropped", "readv seeks relative to the logical position")],
-    "C31": [("C33", "R2.flag-iff-present", "an attribute is applied exactly when its flag says it is present"),
+    "C31": [("C27", "R6.truncate", "truncate(size) by handle sets exactly the size asked for"),
+            ("C33", "R2.flag-iff-present", "an attribute is applied exactly when its flag says it is present"),
             ("C33", "R1.group-agreement", "attribute fields are decoded in the order they were encoded")],
     "C33": [("C39", "R1.pair-agreement", "64-bit sizes are read with the encoding they were written with")],
     "C35": [("C39", "R4.", "r and s survive the mpint encoding inside the signature blob")],
